@@ -193,8 +193,9 @@ these are the situations in which a job's own `_errors`/`_assert`, a silent deat
 `_errors` can arise, see the guards of `jobend`/`silentfail`/`mrpWriteOk`).  Then along EVERY
 continuation (any events: interruptions, other failures, restarts, resets of other objects,
 fork-structure events) in which `o` itself is not reset, the fork never becomes complete or
-disabled — so its node is never Complete/Disabled while the fork is listed, and the
-pipestance is never `Finished`.
+disabled and stays in its node's fork list (re-attaching drops a fork from the list only when
+its directories are empty: `unlist_failed_fork_rejected`) — so its node is never
+Complete/Disabled and the pipestance is never `Finished`.
 PARTIAL: the precondition is not derived from reachability (a theorem "every reachable state
 with a failed job object of an unfinished fork satisfies `FailedBlock`" would need the
 completion chain under failures); fork-level failure markers are covered by
@@ -202,28 +203,48 @@ completion chain under failures); fork-level failure markers are covered by
 previous model reached `Finished` with a failed object (a `silentfail` after completion,
 `_errors` then `_complete` of one job, a failed chunk forgotten by redefining the chunk count
 at re-attach) are rejected now: `late_silentfail_rejected`, `errors_then_complete_rejected`,
-`forget_failed_chunk_rejected`. -/
+`forget_failed_chunk_rejected`; so is the fourth (the failed fork unlisted by `forkorder` at
+re-attach): `unlist_failed_fork_rejected`. -/
 theorem failed_job_never_reports_success_partial {g : List NodeInfo} {s0 : State}
     {σ : Nat → State} {es : Nat → Ev} {n f : Nat} {o : Obj} (hr : Reach g s0)
-    (hrun : Run s0 σ es) (hnr : ∀ i, es i ≠ .reset o) (h0 : FailedBlock s0 n f o) :
-    ∀ j, (σ j).st o = some .failed ∧ fmDone (σ j) n f = false ∧
-      (n < (σ j).nodes.length → f ∈ (σ j).forksOf n → nodeDone (σ j) n = false ∧ ¬ Finished (σ j)) := by
-  have key : ∀ j, Reach g (σ j) ∧ FailedBlock (σ j) n f o := by
+    (hrun : Run s0 σ es) (hnr : ∀ i, es i ≠ .reset o) (h0 : FailedBlock s0 n f o)
+    (hn : n < s0.nodes.length) (hf : f ∈ s0.forksOf n) :
+    ∀ j, (σ j).st o = some .failed ∧ fmDone (σ j) n f = false ∧ f ∈ (σ j).forksOf n ∧
+      nodeDone (σ j) n = false ∧ ¬ Finished (σ j) := by
+  have key : ∀ j, Reach g (σ j) ∧ FailedBlock (σ j) n f o ∧ f ∈ (σ j).forksOf n ∧
+      (σ j).nodes = s0.nodes := by
     intro j
     induction j with
-    | zero => rw [hrun.start]; exact ⟨hr, h0⟩
+    | zero => rw [hrun.start]; exact ⟨hr, h0, hf, rfl⟩
     | succ j ih =>
       rw [hrun.next]
-      exact ⟨Reach.step ih.1 (hrun.en j), failedBlock_step ih.1 (hrun.en j) (hnr j) ih.2⟩
+      exact ⟨Reach.step ih.1 (hrun.en j), failedBlock_step ih.1 (hrun.en j) (hnr j) ih.2.1,
+        failedBlock_listed ih.1 (hrun.en j) ih.2.1 ih.2.2.1, by rw [apply_nodes]; exact ih.2.2.2⟩
   intro j
-  obtain ⟨_, hb⟩ := key j
-  refine ⟨hb.failed, hb.unfinished, fun hn hf => ?_⟩
+  obtain ⟨_, hb, hfj, hnodes⟩ := key j
   have hnd : nodeDone (σ j) n = false := by
     cases hd : nodeDone (σ j) n
     · rfl
-    · have := nodeDone_iff.mp hd f hf
+    · have := nodeDone_iff.mp hd f hfj
       rw [hb.unfinished] at this; cases this
-  exact ⟨hnd, fun hfin => by rw [(hfin.2 n hn).1] at hnd; cases hnd⟩
+  exact ⟨hb.failed, hb.unfinished, hfj, hnd,
+    fun hfin => by rw [(hfin.2 n (by rw [hnodes]; exact hn)).1] at hnd; cases hnd⟩
+
+/-- the case of `failed_job_never_reports_success_partial` in which NOTHING is assumed beyond what
+is observed: the JOIN of a listed, unfinished stage fork is seen failed in a reachable state
+(`FailSite.join` has no side condition).  Then along every continuation in which the join is
+not reset the fork never finishes, its node is never Complete/Disabled and the pipestance is
+never `Finished`.  (For a failed chunk or split the side conditions of `FailSite` — the join
+directory still empty; for the split also no chunk submitted — remain assumptions: that is the
+gap named in `failed_job_never_reports_success_partial`.) -/
+theorem failed_join_never_reports_success {g : List NodeInfo} {s0 : State}
+    {σ : Nat → State} {es : Nat → Ev} {n f : Nat} (hr : Reach g s0)
+    (hrun : Run s0 σ es) (hnr : ∀ i, es i ≠ .reset ⟨n, f, .join⟩)
+    (hk : s0.kind n ≠ .pipeline) (hfail : s0.st ⟨n, f, .join⟩ = some .failed)
+    (hopen : fmDone s0 n f = false) (hn : n < s0.nodes.length) (hf : f ∈ s0.forksOf n) :
+    ∀ j, (σ j).st ⟨n, f, .join⟩ = some .failed ∧ fmDone (σ j) n f = false ∧
+      f ∈ (σ j).forksOf n ∧ nodeDone (σ j) n = false ∧ ¬ Finished (σ j) :=
+  failed_job_never_reports_success_partial hr hrun hnr ⟨hk, hfail, hopen, .join⟩ hn hf
 
 /-- one step of it, in any reachable state -/
 theorem failed_blocks_fork {g : List NodeInfo} {s : State} {e : Ev} {n f : Nat} {o : Obj}
@@ -390,6 +411,15 @@ theorem forget_failed_chunk_rejected :
        .jobend ⟨0, 0, .chunk 0⟩ .errors, .R ⟨0, 0, .chunk 0⟩ .errors, .nodestate 0 .failed,
        .crash, .restart, .mkchunks 0 0 0] = some (15, "chunks-redefined-at-reattach") := by decide
 
+/-- re-attaching cannot unlist the fork of a failed chunk either -/
+theorem unlist_failed_fork_rejected :
+    rejectedAt gS
+      [.fork 0 0, .nodestate 0 .running, .refresh, .launch ⟨0, 0, .split⟩,
+       .joblog ⟨0, 0, .split⟩, .jobend ⟨0, 0, .split⟩ .complete, .R ⟨0, 0, .split⟩ .complete,
+       .mkchunks 0 0 1, .launch ⟨0, 0, .chunk 0⟩, .joblog ⟨0, 0, .chunk 0⟩,
+       .jobend ⟨0, 0, .chunk 0⟩ .errors, .R ⟨0, 0, .chunk 0⟩ .errors, .nodestate 0 .failed,
+       .crash, .restart, .forkorder 0 []] = some (15, "dropped-fork-not-empty") := by decide
+
 /-- … and that state satisfies `FailedBlock`: the chunk is seen failed, in range, the join has
 not been submitted — `failed_job_never_reports_success_partial` applies to every continuation -/
 def sFailedChunk : State :=
@@ -401,6 +431,21 @@ def sFailedChunk : State :=
 
 example : FailedBlock sFailedChunk 0 0 ⟨0, 0, .chunk 0⟩ :=
   ⟨by decide, by decide, by decide, .chunk 0 (by decide) ⟨by decide, by decide⟩⟩
+
+/-- the premises of `failed_join_never_reports_success` in a reachable state: the chunk completes,
+the join is submitted and fails -/
+def hFailedJoin : List Ev :=
+  [.fork 0 0, .nodestate 0 .running, .refresh, .launch ⟨0, 0, .split⟩,
+   .joblog ⟨0, 0, .split⟩, .jobend ⟨0, 0, .split⟩ .complete, .R ⟨0, 0, .split⟩ .complete,
+   .mkchunks 0 0 1, .launch ⟨0, 0, .chunk 0⟩, .joblog ⟨0, 0, .chunk 0⟩,
+   .jobend ⟨0, 0, .chunk 0⟩ .complete, .R ⟨0, 0, .chunk 0⟩ .complete, .launch ⟨0, 0, .join⟩,
+   .joblog ⟨0, 0, .join⟩, .jobend ⟨0, 0, .join⟩ .errors, .R ⟨0, 0, .join⟩ .errors]
+def sFailedJoin : State := prefixState (init gS) hFailedJoin hFailedJoin.length
+
+example : Reach gS sFailedJoin := run_reach (run_of_list _ hFailedJoin (by decide)) _
+example : sFailedJoin.kind 0 ≠ .pipeline ∧ sFailedJoin.st ⟨0, 0, .join⟩ = some .failed ∧
+    fmDone sFailedJoin 0 0 = false ∧ 0 < sFailedJoin.nodes.length ∧ 0 ∈ sFailedJoin.forksOf 0 := by
+  decide
 
 /-- Negative witness for the hypothesis `reopened = false` of the `…_partial` theorems above:
 node 0 has no fork at first (it counts as Disabled), its consumer node 1 runs and completes;
